@@ -2,8 +2,8 @@
 EXTENDS Integers, Sequences, FiniteSets, TLC, TLCExt, Json, CSV, IOUtils, SequencesExt
 CONSTANTS Emit
 E == INSTANCE Env
-VARIABLES kind, pat, fid, cols, lhs
-vars == <<kind, pat, fid, cols, lhs>>
+VARIABLES kind, pat, fid, cols, lhs, cform
+vars == <<kind, pat, fid, cols, lhs, cform>>
 Form == E!Formulas[fid]
 Laws == kind = "resolve" => E!Sufficient(pat, Form) /\ E!Necessary(pat, Form)
 DotLaw == kind = "dot" => LET d == E!DotExpand(cols, lhs) IN
@@ -17,13 +17,15 @@ EmitCase == Emit =>
   THEN CSVWrite("%1$s", <<ToJson([kind |-> kind, data |-> SelectSeq(Order3, LAMBDA n : n \in pat.data), context |-> SelectSeq(Order3, LAMBDA n : n \in pat.context),
           formula |-> E!FormulaText[fid], ok |-> E!Succeeds(pat, Form), required_before |-> SetToSeq(E!RequiredBefore(Form)),
           columns |-> IF E!Succeeds(pat, Form) THEN E!Columns(pat, Form) ELSE <<>>,
-          sources |-> IF E!Succeeds(pat, Form) THEN E!Sources(pat, Form) ELSE [n \in {} |-> ""],
+          cform |-> cform,
+          sources |-> IF E!Succeeds(pat, Form) THEN [n \in DOMAIN E!Sources(pat, Form) |-> E!SourceName(E!Sources(pat, Form)[n], cform)] ELSE [n \in {} |-> ""],
           required_after |-> IF E!Succeeds(pat, Form) THEN SetToSeq(E!RequiredAfter(pat, Form)) ELSE <<>>])>>, Out)
   ELSE CSVWrite("%1$s", <<ToJson([kind |-> kind, cols |-> cols, lhs |-> SetToSeq(lhs), dot |-> E!DotExpand(cols, lhs)])>>, Out)
 \* "c 3" needs quoting in a formula
 Perms4 == {p \in [1..4 -> {"c1", "c2", "c 3", "y"}] : \A i, j \in 1..4 : i # j => p[i] # p[j]}
 Init == \/ /\ kind = "resolve" /\ pat \in [data : SUBSET E!Names, context : SUBSET E!Names] /\ fid \in DOMAIN E!Formulas /\ cols = <<>> /\ lhs = {}
-        \/ /\ kind = "dot" /\ pat = [data |-> {}, context |-> {}] /\ fid = 1 /\ cols \in Perms4 /\ lhs \in {{"y"}, {"y", "c2"}, {}, {"c 3"}, {"y", "c 3"}}
+              /\ cform \in (IF pat.context = {} THEN {"dict"} ELSE {"dict", "lm", "lm-named"})
+        \/ /\ kind = "dot" /\ pat = [data |-> {}, context |-> {}] /\ fid = 1 /\ cols \in Perms4 /\ lhs \in {{"y"}, {"y", "c2"}, {}, {"c 3"}, {"y", "c 3"}} /\ cform = "dict"
 Next == UNCHANGED vars
 Spec == Init /\ [][Next]_vars
 =============================================================================
